@@ -7,7 +7,7 @@ G = None
 def register(progs, g):
     global G
     G = g
-    progs.update({'C17': prog_C17, 'C03': prog_C03, 'C16': prog_C16})
+    progs.update({'C17': prog_C17, 'C03': prog_C03, 'C16': prog_C16, 'C01': prog_C01, 'C02': prog_C02})
 
 
 def plain_diff(ops_path, a_path, b_path, limit=40):
@@ -132,3 +132,30 @@ def prog_C16(ctx):
              'trusted: flock(2) mutual exclusion between open file descriptions, O_APPEND single-write appends (no torn lines), bufio.Scanner token-limit semantics (modelled: a line is readable iff len+1 <= limit)'],
             'generated histories: 1-4 writers, message sizes from 0 to just under 1 MiB with emphasis on 64 KiB and 1 MiB boundaries, ignore lists by id and by offset, every read offset; distinct_nontrivial = distinct message sizes + histories',
             cov_from_stats=cov)
+
+
+ALG_TRUSTED = ['verif hooks (build tag verif, add-only): dealer coefficients, shares and keys are read from the real machines',
+               'correspondence algdiff: real ceremonies on real BaseNodeService nodes (LevelDB state, file board) and real airgapped machines, scheduled step by step by the harness; the Lean Shamir/DKG model over Z/r must predict every share and every recovered secret',
+               'independent verifier: prysm crypto/bls (blst) checks every reconstructed/broadcast/stored signature under the group key over the proposed payload',
+               'modelled, not verified: kyber (G1/G2 arithmetic, pairing, tbls, Pedersen DKG, VSS), i.e. that BLS12-381 with kyber is an instance of the abstract bilinear structure over a field of prime order r (r prime is a hypothesis of the instantiation, not an axiom); scrypt cost lowered for throughput in this driver only']
+
+
+def alg_cov(ctx, st):
+    ctx.cov.update(evaluations=st['Ops'] + st['SignaturesChecked'], distinct_nontrivial=st['SharesChecked'] + st['SubsetsChecked'] + st['Batches'],
+                   exhaustive=False, ceremonies=st['Ceremonies'], configurations=st['Configs'], batches=st['Batches'],
+                   signatures_checked_with_prysm=st['SignaturesChecked'], shares_predicted_by_model=st['SharesChecked'],
+                   subsets_recovered=st['SubsetsChecked'], driver_notes=st.get('Notes') or [])
+
+
+ALG_RULE = ('full ceremonies for the (n,t) of the tier with random answering orders; per ceremony 2-3 batches (explicit payloads incl. unusual file names, baked ranges) signed by a random subset of size t..n in random order, the rest late or silent; up to 12 t-subsets of real shares recovered in random order; '
+            'distinct_nontrivial = shares + subsets + batches compared')
+
+
+def prog_C01(ctx):
+    generic(ctx, ['Dc4bcVerif.Props.C01'], 'algdiff', 'alg', ['C01'], ALG_TRUSTED, ALG_RULE, cov_from_stats=alg_cov)
+    ctx.assumptions += ['placeholder entries written on event_signing_start (empty Signature) are not signature values; completeness at quiescence is checked under C07']
+
+
+def prog_C02(ctx):
+    fsm_part(ctx, ['C02'], ['event_dkg_master_key'])
+    generic(ctx, ['Dc4bcVerif.Props.C02', 'Dc4bcVerif.Props.C01'], 'algdiff', 'alg', ['C02'], ALG_TRUSTED, ALG_RULE, cov_from_stats=alg_cov)
